@@ -174,6 +174,7 @@ impl Gen
                 "xbc" => Op::XBc(self.ty(), self.payload()),
                 "xeev" => Op::XEEv(self.ent(), self.ty(), self.payload()),
                 "xsysev" => Op::XSysEv(self.sys(applied), self.payload()),
+                "xres" => Op::XRes(self.ty()),
                 "smut" => Op::SMut(self.ent(), self.ty(), self.val()),
                 "sset" => Op::SSet(self.ent(), self.ty(), self.setval()),
                 "sno" => Op::SNo(self.ent(), self.ty(), self.val()),
@@ -295,7 +296,7 @@ impl Gen
             if self.budget == 0 { self.budget = 1; }
             // between trees everything issued has been applied
             let applied = self.once_used.clone();
-            let xops: Vec<String> = self.g.alphabet.iter().filter(|n| matches!(n.as_str(), "xdesp" | "xdesprec" | "xrm" | "xbc" | "xeev" | "xsysev")).cloned().collect();
+            let xops: Vec<String> = self.g.alphabet.iter().filter(|n| matches!(n.as_str(), "xdesp" | "xdesprec" | "xrm" | "xbc" | "xeev" | "xsysev" | "xres")).cloned().collect();
             if !xops.is_empty() && self.rng.gen_range(0..100) < self.g.p_direct
             {
                 let full = std::mem::replace(&mut self.g.alphabet, xops);
